@@ -27,10 +27,14 @@ def wt():
         with _lock:
             path = "/tmp/regress/wt%d" % len(_wts)
             _wts.append(path)
-        sh("git -C /repo worktree remove --force %s" % path)
-        os.makedirs("/tmp/regress", exist_ok=True)
-        rc, out = sh("git -C /repo worktree add --detach %s HEAD" % path)
-        assert rc == 0, out
+            # git's worktree bookkeeping is not safe against concurrent `worktree add`
+            sh("git -C /repo worktree remove --force %s" % path)
+            os.makedirs("/tmp/regress", exist_ok=True)
+            rc, out = sh("git -C /repo worktree add --detach %s HEAD" % path)
+            if rc != 0:
+                sh("git -C /repo worktree prune")
+                rc, out = sh("git -C /repo worktree add --detach %s HEAD" % path)
+            assert rc == 0, out
         _local.wt = path
     return _local.wt
 
